@@ -6,7 +6,7 @@ Local Open Scope R_scope.
 
 Definition ROps : ops R :=
   {| o0 := 0; o1 := 1; oadd := Rplus; osub := Rminus; omul := Rmult; odiv := Rdiv; oopp := Ropp; oconj := fun x => x;
-     osqrt := sqrt; oabs := Rabs; oltb := fun a b => if Rlt_dec a b then true else false; osmall := / 10 ^ 40; osafe := 1 |}.
+     osqrt := sqrt; oabs := Rabs; oltb := fun a b => if Rlt_dec a b then true else false; osmall := / 10 ^ 40; ozero := / 10 ^ 40; osafe := 1 |}.
 Definition R2 := (R * R)%type.
 Definition r2ops : vops R R2 :=
   {| vadd := fun u v => (fst u + fst v, snd u + snd v); vsub := fun u v => (fst u - fst v, snd u - snd v);
